@@ -45,7 +45,7 @@ def rand_psd(rng, npr, m, kind):
 def correspond(ctx):
     rng, tier = ctx["rng"], ctx["tier"]
     npr = rng.nprng()
-    n = 40 if tier == "quick" else 300
+    n = 40 if tier == "quick" else 1500
     cases, meta = [], []
     for k in range(n):
         non = rng.randint(1, 4); b = rng.randint(1, 8)
@@ -64,7 +64,7 @@ def correspond(ctx):
                      % ("true" if ok_arg else "false", hexf(1e-9), hexf(sca), flist2(Kp), flist2(C), non, flist2(R)))
         meta.append({"n_onaxis": non, "b": b, "kind": kind, "rcond": rc, "nontrivial": bool(b > 1 and sca > 0)})
     # the method on the object: stored (float32) matrix and n_subaps[0]
-    for k in range(4 if tier == "quick" else 20):
+    for k in range(4 if tier == "quick" else 60):
         cfg = scc.gen_config(rng, "small", uniform=True)
         if len(cfg["masks"]) < 2:
             continue
